@@ -51,6 +51,7 @@ type Case struct {
 	Frag      bool     `json:"frag"`              // sender: IsFragmentationEnabled
 	InFaceInd bool     `json:"ifi,omitempty"`     // sender: IsIncomingFaceIndicationEnabled
 	LocalCong bool     `json:"lcong,omitempty"`   // sender's queue is congested: it adds its own mark
+	Warmed    bool     `json:"warmed,omitempty"`  // the face has carried > 64 KiB before: the sender looks at its (idle) queue when the first packet goes out
 	RxThreads int      `json:"rxt"`               // forwarding threads at the receiver
 	RxLocal   bool     `json:"rxlocal,omitempty"` // receiver face has local scope
 	Msgs      []Msg    `json:"msgs"`
@@ -305,7 +306,7 @@ func execC10(c Case) (res evid.Result) {
 		return tx.VerifTakeFrames(), nil
 	}
 
-	if c.LocalCong {
+	if c.LocalCong || c.Warmed {
 		// the link service looks at the transport's send queue only after 64 KiB went out
 		w, _ := lpwire.MakeData("warm", 4000, 1)
 		for i := 0; i < 17; i++ {
@@ -317,8 +318,12 @@ func execC10(c Case) (res evid.Result) {
 				return fail("%v (warm-up)", err)
 			}
 		}
-		tx.VerifSetSendQueueSize(1 << 30)
-		cls["local-congestion-marking"] = true
+		if c.LocalCong {
+			tx.VerifSetSendQueueSize(1 << 30)
+			cls["local-congestion-marking"] = true
+		} else {
+			cls["queue-looked-at-and-idle"] = true
+		}
 	}
 
 	// ---- sender side
@@ -698,6 +703,7 @@ func genCase(t *rapid.T) Case {
 	c.Frag = rapid.IntRange(0, 5).Draw(t, "frag") != 0
 	c.InFaceInd = rapid.Bool().Draw(t, "inFaceInd")
 	c.LocalCong = rapid.IntRange(0, 11).Draw(t, "localCong") == 0
+	c.Warmed = !c.LocalCong && rapid.IntRange(0, 4).Draw(t, "warmed") == 0
 	c.RxThreads = rapid.IntRange(1, 4).Draw(t, "rxThreads")
 	c.RxLocal = rapid.IntRange(0, 4).Draw(t, "rxLocal") == 0
 	n := rapid.SampledFrom([]int{1, 1, 2, 2, 3, 3}).Draw(t, "nMsgs")
@@ -770,7 +776,7 @@ func genCase(t *rapid.T) Case {
 	return c
 }
 
-const ruleC10 = "1-3 packets (Data/Interest of an exact drawn size, biased to the one-frame boundary and to multiples of the fragment payload) sent through the real link-service send path at a drawn MTU 128..8800 with drawn options (fragmentation on/off, forwarder PIT token of 0/6/other length independent of the packet's own token, congestion mark, incoming-face indication, locally added congestion mark), all frames fed to a second link service in a drawn permutation (optionally one fragment twice), directly or -- a quarter of the cases -- as a byte stream through readTlvStream in drawn read sizes (stream face), the delivered packets being compared again after the receiver has moved on. Non-trivial: >=1 packet sent as >=2 fragments and a non-identity receive order, or frames of >=2 packets interleaved"
+const ruleC10 = "1-3 packets (Data/Interest of an exact drawn size, biased to the one-frame boundary and to multiples of the fragment payload) sent through the real link-service send path at a drawn MTU 128..8800 with drawn options (fragmentation on/off, forwarder PIT token of 0/6/other length independent of the packet's own token, congestion mark, incoming-face indication, locally added congestion mark, or more than 64 KiB of earlier traffic on the face so that the sender's periodic look at its idle queue falls on the first packet), all frames fed to a second link service in a drawn permutation (optionally one fragment twice), directly or -- a quarter of the cases -- as a byte stream through readTlvStream in drawn read sizes (stream face), the delivered packets being compared again after the receiver has moved on. Non-trivial: >=1 packet sent as >=2 fragments and a non-identity receive order, or frames of >=2 packets interleaved"
 
 func TestC10Frag(t *testing.T) {
 	rec := evid.New("C10", "TestC10Frag", ruleC10)
